@@ -84,7 +84,15 @@ def _sis(i):
     combos = [(m, o) for m in maps for o in ords]
     if _G["tier"] == "quick":
         combos = [combos[(i + k * 5) % len(combos)] for k in range(6)]
-    want = [[float(e[0]) - float(s.get("shift", 0)), e[1], e[2], e[3]] for e in reflog]
+    lattice = reflog is None
+    if not lattice:
+        want = [[float(e[0]) - float(s.get("shift", 0)), e[1], e[2], e[3]] for e in reflog]
+    else:
+        # simultaneous events: the specification leaves their order open, so the reference is the implementation's own
+        # run on the identity-labelled, sorted-insertion graph; the infector of an infection is left out of the comparison
+        want = None
+        ident = list(range(1, n + 1))
+        combos = [(("identity", ident), ("identity-order", ident, edges_of(s["adj"])))] + combos
     for (mk, lab), (ok, norder, eorder) in combos:
         G = relabel.build_graph(n, norder, eorder, lab)
         back = {lab[u - 1]: u for u in nodes}
@@ -102,6 +110,11 @@ def _sis(i):
                 def transmissions(self):
                     return [(t, None if a is None else back[a], back[b]) for (t, a, b) in sim.transmissions()]
             got = event_sis.log_from_full(View(), nodes)
+            if lattice:
+                got = sorted([e[0], e[1], e[2]] for e in got)
+                if want is None:
+                    want = got
+                    continue
             if got != want:
                 k = 0
                 while k < min(len(got), len(want)) and got[k] == want[k]:
@@ -209,6 +222,10 @@ def main():
     for rec in res2.printed("REF"):
         by.setdefault(rec[1] - 1, []).append((rec[2], rec[3]))
     sis_refs = {i: by[i][0][1] for i in by if not any(t for t, _ in by[i])}
+    lat = event_scn.sis_lattice_scenarios(chk.seed + 5, 150 if tier == "quick" else 1000)
+    for s_ in lat:
+        sis_refs[len(sis)] = None
+        sis.append(s_)
     _G["sis"] = sis
     _G["sis_refs"] = sis_refs
 
